@@ -231,7 +231,15 @@ func (i *Iterator) autoNext(ctx context.Context) bool {
 		return false
 	}
 	if endApprox.Lower.After(i.bounds.End) {
-		return i.Next(ctx, i.view.Start.Span(i.bounds.End))
+		remaining := i.view.Start.Span(i.bounds.End)
+		if remaining <= 0 {
+			// The view already lies at or past the end of the bounds (e.g. after a
+			// seek to a timestamp outside them). A remaining span of -1 would equal
+			// AutoSpan and re-enter autoNext forever.
+			i.reset(i.bounds.End.SpanRange(0))
+			return false
+		}
+		return i.Next(ctx, remaining)
 	}
 	i.view.End = endApprox.Lower
 	i.reset(i.view.BoundBy(i.bounds))
@@ -291,7 +299,14 @@ func (i *Iterator) autoPrev(ctx context.Context) bool {
 		return false
 	}
 	if startApprox.Lower.Before(i.bounds.Start) {
-		return i.Prev(ctx, i.bounds.Start.Span(i.view.End))
+		remaining := i.bounds.Start.Span(i.view.End)
+		if remaining <= 0 {
+			// Mirror of autoNext: the view already lies at or before the start of the
+			// bounds; a remaining span of -1 would equal AutoSpan and recurse forever.
+			i.reset(i.bounds.Start.SpanRange(0))
+			return false
+		}
+		return i.Prev(ctx, remaining)
 	}
 	i.view.Start = startApprox.Lower + 1
 	i.reset(i.view.BoundBy(i.bounds))
